@@ -167,6 +167,10 @@ func (g *docGen) htmlMedia() string {
 	close := ""
 	if kind != "img" {
 		close = "</" + kind + ">"
+		if g.r.Intn(2) == 0 {
+			// fallback content is never displayed, so what it links to owns no number
+			close = `your browser cannot play this, <a href="https://hidden.example/fallback">download it</a> <img src="https://hidden.example/poster.png">` + close
+		}
 	}
 	switch g.r.Intn(5) {
 	case 0:
